@@ -50,7 +50,8 @@ PARTIAL = [
 LEVEL_TEXT = ('Proved in Coq for all grid sizes, all target layouts, all thresholds (max_distance), every metric key and all '
               'coordinates: proximity 0 iff target; every non-NaN cell remembers a real target cell, its distance is the '
               'distance to exactly that cell (the one allocation/direction are taken from) and is <= max_distance, hence '
-              'never below the true nearest distance; a cell is NaN in proximity iff NaN in allocation/direction; with >= 1 '
+              'never below the true nearest distance; a cell is NaN in proximity iff NaN in allocation/direction; a cell with no target '
+              'within max_distance is NaN in all three; with >= 1 '
               'target and unbounded max_distance no cell is NaN; single target => exact. Bounded (vm_compute): exactness for '
               'every target layout on every grid up to 3x4, unit cells, EUCLIDEAN, max_distance in {1, sqrt2, 2, inf}. '
               'Exactness on larger grids is NOT claimed (refuted by a witness). Correspondence: the three public functions '
